@@ -678,8 +678,12 @@ func (gen *Generator) GenerateCallBySymbol(sym *SexpSymbol, args []Sexp, orig Se
 		for i := 0; i < gen.scopes; i++ {
 			gen.AddInstruction(RemoveScopeInstr{})
 		}
+		// also leave this activation's function scope, and re-enter at 0 so
+		// that the next iteration gets a fresh one: closures and lazy arguments
+		// created in this iteration keep their own variables.
+		gen.AddInstruction(RemoveScopeInstr{})
 		gen.AddInstruction(PrepareCallInstr{sym, len(args)})
-		gen.AddInstruction(GotoInstr{1}) // goto 1 instead of 0 to avoid adding a new scope
+		gen.AddInstruction(GotoInstr{0})
 	} else {
 		gen.AddInstruction(CallExprInstr{callee: sym, args: append([]Sexp(nil), args...)})
 	}
